@@ -88,7 +88,7 @@ def mutants(files):
 
 def run(cmd, cwd, timeout=900):
     try:
-        p = subprocess.run(cmd, cwd=cwd, shell=True, env=ENV, stdout=subprocess.PIPE, stderr=subprocess.STDOUT, text=True, timeout=timeout)
+        p = subprocess.run(cmd, cwd=cwd, shell=True, executable="/bin/bash", env=ENV, stdout=subprocess.PIPE, stderr=subprocess.STDOUT, text=True, timeout=timeout)
         return p.returncode, p.stdout
     except subprocess.TimeoutExpired:
         return 124, "timeout"
@@ -106,7 +106,13 @@ def setup_worker(k):
     os.makedirs(f"{w}/out", exist_ok=True)
     # warm builds
     run("cargo test --offline --no-run", f"{w}/repo")
-    run("cargo build --release --offline", f"{w}/mc")
+    rc, out = run("cargo build --release --offline 2>&1", f"{w}/mc")
+    if rc != 0 or "Finished" not in out:
+        raise SystemExit(f"worker {k}: the engine copy does not build:\n{out[-2000:]}")
+    # the unmutated copy must pass: a worker that alarms on the original tree is useless
+    rc, out = run(f"AVGMC_OUT={w}/out {w}/target/release/avgmc --property C10 --tier quick 2>/dev/null | tail -1", f"{w}/mc")
+    if "new_violations=0" not in out:
+        raise SystemExit(f"worker {k}: sanity run failed: {out}")
     return w
 
 def evaluate(w, m):
@@ -125,15 +131,16 @@ def evaluate(w, m):
         if "FAILED" in out or out.count("test result: ok") < 3:
             res["status"] = "killed-by-repo-tests"
             return res
-        rc, out = run("cargo build --release --offline 2>&1 | tail -3", f"{w}/mc", timeout=900)
-        if rc != 0:
+        rc, out = run("cargo build --release --offline 2>&1", f"{w}/mc", timeout=900)
+        if rc != 0 or "Finished" not in out:
             res["status"] = "engine-does-not-compile"
             return res
         env = f"AVGMC_OUT={w}/out"
         alarms = []
         for i in range(1, 21):
             pid = f"C{i:02d}"
-            rc, out = run(f"{env} timeout 600 {w}/target/release/avgmc --property {pid} --tier quick 2>/dev/null | grep -E '^VIOLATION|signature=' | head -2", f"{w}/mc", timeout=700)
+            rc, out = run(f"{env} timeout 600 {w}/target/release/avgmc --property {pid} --tier quick 2>/dev/null | grep -E '^VIOLATION|signature=|^property=|ENGINE' | head -3; echo rc=${{PIPESTATUS[0]}}", f"{w}/mc", timeout=700)
+            res.setdefault("log", []).append(pid + " " + out.strip().replace("\n", " | ")[-160:])
             if "VIOLATION" in out:
                 sig = re.findall(r"signature=(\S+)", out)
                 alarms.append(pid + ":" + (sig[0] if sig else "?"))
